@@ -355,8 +355,10 @@ def noise(rng):
     k = rng.random()
     if k < 0.3:
         return frame(1, 7, rand_payload(rng, 4))
-    if k < 0.5:
+    if k < 0.42:
         return b'$GPTXT,01,01,02,hello*00\r\n'
+    if k < 0.5:
+        return rng.choice([b'{"class":"TPV","device":"/dev/ttyS3","mode":3}\r\n', b'{"class":"SKY","satellites":[]}\r\n'])
     if k < 0.7:
         return bytes(rng.randrange(256) for _ in range(rng.randrange(1, 6)))
     if k < 0.85:
@@ -448,38 +450,31 @@ def gen_srv(rng, n, profile):
 # =====================================================================================================
 # seqs: buffered, timed back-end stub; sequences of requests; trace validation
 # =====================================================================================================
-class BufSrv(sb.UbxServerBase_):
-    """an input buffer that fills along arrival time-lines whether or not anybody reads; `_flush_input()` really
-    drops what has arrived; reads return at most `chunk` bytes and take at least one tick"""
+class Link:
+    """the receiver's end of a scenario: an input buffer that fills along arrival time-lines whether or not anybody reads;
+    what a transmission does (accepted or not, what it makes arrive when) follows the scenario's script"""
 
-    def __init__(self, sc, req_index=None, tick=None, pending=()):
-        super().__init__()
+    def __init__(self, sc, req_index=None, pending=(), buffered=b''):
         self.sc = sc
         self.pending = sorted(pending, key=lambda e: e[0])      # stable: arrivals of one instant keep their order
-        self.buf = bytearray()
-        self.sent, self.rx_trace, self.tx_trace, self.calls = [], [], [], ''
+        self.buf = bytearray(buffered)
+        self.sent, self.tx_trace = [], []
         self.cur = req_index
         self.attempt = 0
-        self.limit = 400000
 
     def begin(self, i):
         self.cur, self.attempt = i, 0
 
-    def _arrive(self):
+    def arrive(self):
         while self.pending and self.pending[0][0] <= CLK.ticks:
             self.buf += self.pending.pop(0)[1]
 
-    def _recover(self):
-        self.calls += 'v'
-
-    def _flush_input(self):
-        self.calls += 'f'
-        self._arrive()
+    def drop(self):
+        self.arrive()
         self.buf.clear()
 
-    def _transmit(self, data):
+    def on_tx(self, data):
         self.sent.append(bytes(data))
-        self.calls += 't'
         if len(self.sent) > 200:
             raise Runaway()
         r = self.sc['reqs'][self.cur]
@@ -493,35 +488,208 @@ class BufSrv(sb.UbxServerBase_):
             self.pending.sort(key=lambda e: e[0])
         return ok
 
+    def read(self, chunk, timeout):
+        """at most `chunk` bytes, as soon as there are any; None after `timeout` ticks without; takes at least one tick"""
+        t0 = CLK.ticks
+        self.arrive()
+        if not self.buf:
+            nxt = self.pending[0][0] if self.pending else None
+            if nxt is not None and nxt <= t0 + timeout:
+                CLK.ticks = max(nxt, t0)
+                self.arrive()
+            else:
+                CLK.ticks = t0 + timeout
+                return None
+        if CLK.ticks == t0:
+            CLK.ticks += 1
+        data = bytes(self.buf[:chunk])
+        del self.buf[:chunk]
+        return data
+
+
+class Traced:
+    """mixed in FRONT of a server class: records the calls the request layer makes on its back end and what they return"""
+
+    def trace_init(self, link):
+        self.link = link
+        self.rx_trace, self.calls = [], ''
+        self.limit = 400000
+
+    sent = property(lambda self: self.link.sent)
+    tx_trace = property(lambda self: self.link.tx_trace)
+
+    def _recover(self):
+        self.calls += 'v'
+        return super()._recover()
+
+    def _flush_input(self):
+        self.calls += 'f'
+        return super()._flush_input()
+
+    def _transmit(self, data):
+        self.calls += 't'
+        return super()._transmit(data)
+
     def _receive(self):
         self.calls += 'r'
         t0 = CLK.ticks
         if t0 - T0 > self.limit:
             raise Runaway()
-        self._arrive()
-        timeout = self.sc['timeout']
-        if not self.buf:
-            nxt = self.pending[0][0] if self.pending else None
-            if nxt is not None and nxt <= t0 + timeout:
-                CLK.ticks = max(nxt, t0)
-                self._arrive()
-            else:
-                CLK.ticks = t0 + timeout
-                self.rx_trace.append((CLK.ticks - t0, b''))
-                return None
-        if CLK.ticks == t0:
-            CLK.ticks += 1
-        chunk = self.sc['chunk']
-        data = bytes(self.buf[:chunk])
-        del self.buf[:chunk]
-        self.rx_trace.append((CLK.ticks - t0, data))
+        data = super()._receive()
+        self.rx_trace.append((CLK.ticks - t0, bytes(data) if data else b''))
         return data
+
+
+class LinkSrv(sb.UbxServerBase_):
+    """the plainest back end over a Link: `_flush_input()` really drops what has arrived; reads return at most `chunk` bytes"""
+
+    def _recover(self):
+        pass
+
+    def _flush_input(self):
+        self.link.drop()
+
+    def _transmit(self, data):
+        return self.link.on_tx(data)
+
+    def _receive(self):
+        return self.link.read(self.link.sc['chunk'], self.link.sc['timeout'])
+
+
+class BufSrv(Traced, LinkSrv):
+    def __init__(self, link):
+        super().__init__()
+        self.trace_init(link)
+
+
+# ---- the library's own back ends over the same Link: tty over a serial stub, gpsd over socket stubs ----------
+class LinkSerial(realenv.Serial):
+    link = None
+
+    def read(self, n=1):
+        t = self.timeout if self.timeout is not None else 1000
+        return self.link.read(n, max(1, int(t * 1024))) or b''
+
+    def write(self, data):
+        self.log.append(('write', bytes(data)))
+        return len(data) if self.link.on_tx(data) else max(0, len(data) - 1)
+
+    def reset_input_buffer(self):
+        self.link.drop()
+
+
+def make_tty(link):
+    import ubxlib.server_tty as tty
+    realenv.patch_time(tty)
+
+    class TtySrv(Traced, tty.GnssUBlox):
+        pass
+    s = TtySrv('/dev/ttyS3', 115200)
+    port = LinkSerial()
+    port.link = link
+    s.serial_port = port
+    s.trace_init(link)
+    return s
+
+
+GPSD_DEVICE = '/dev/ttyS3'
+
+
+class LinkSockets:
+    """stands in for the `socket` module inside ubxlib.server: the data socket reads from the Link, the control socket
+    hands the hex-encoded command to it and answers as gpsd does"""
+    AF_INET, AF_UNIX, SOCK_STREAM, SHUT_RDWR = real_socket.AF_INET, real_socket.AF_UNIX, real_socket.SOCK_STREAM, real_socket.SHUT_RDWR
+    timeout, error = real_socket.timeout, real_socket.error
+    link = None
+
+    class socket:
+        def __init__(self, family=None, kind=None):
+            self.family = family
+            self.t = None
+            self.hello = []
+            self.reply = b''
+
+        def connect(self, addr):
+            pass
+
+        def settimeout(self, t):
+            self.t = t
+
+        def send(self, data):
+            if bytes(data).startswith(b'?WATCH'):
+                self.hello.append(('{"class":"VERSION","release":"3.22","rev":"3.22","proto_major":3,"proto_minor":14}\r\n'
+                                   '{"class":"DEVICES","devices":[{"class":"DEVICE","path":"' + GPSD_DEVICE + '","driver":"u-blox"}]}\r\n').encode())
+            return len(data)
+
+        def sendall(self, data):
+            data = bytes(data)
+            head = ('&' + GPSD_DEVICE + '=').encode()
+            try:
+                if not data.startswith(head):
+                    raise ValueError
+                raw = bytes.fromhex(data[len(head):].decode())
+            except ValueError:
+                raw = b'not-a-command:' + data          # recorded as sent, and never equal to the canonical frame
+            self.reply = b'OK' if LinkSockets.link.on_tx(raw) else b'ERROR'
+
+        def recv(self, n):
+            if self.family == real_socket.AF_UNIX:
+                r, self.reply = self.reply, b''
+                return r
+            if self.hello:
+                return self.hello.pop(0)
+            t = self.t if self.t is not None else 1000
+            data = LinkSockets.link.read(n, max(1, int(t * 1024)))
+            if data is None:
+                raise real_socket.timeout()
+            return data
+
+        def shutdown(self, how):
+            pass
+
+        def close(self):
+            pass
+
+
+_SOCK_NAMES = None
+
+
+def point_sockets(srv, mod):
+    """whatever way ubxlib.server reaches the socket API - `import socket` or names imported from it - goes to `mod`"""
+    global _SOCK_NAMES
+    if _SOCK_NAMES is None:
+        _SOCK_NAMES = {}
+        for name, val in list(vars(srv).items()):
+            if val is real_socket:
+                _SOCK_NAMES[name] = 'module'
+            elif val is real_socket.socket:
+                _SOCK_NAMES[name] = 'class'
+        _SOCK_NAMES.setdefault('socket', 'module')
+    for name, k in _SOCK_NAMES.items():
+        setattr(srv, name, mod if k == 'module' else mod.socket)
+
+
+def make_gpsd(link):
+    import ubxlib.server as srv
+    point_sockets(srv, LinkSockets)
+    realenv.patch_time(srv)
+    LinkSockets.link = link
+
+    class GpsdSrv(Traced, srv.GnssUBlox):
+        pass
+    s = GpsdSrv(GPSD_DEVICE)
+    s.trace_init(link)
+    return s
 
 
 def new_server(sc, **kw):
     FrameFactory.destroy()
-    s = BufSrv(sc, **kw)
+    link = Link(sc, **kw)
+    backend = sc.get('backend', 'base')
+    t = CLK.ticks
+    s = {'base': BufSrv, 'tty': make_tty, 'gpsd': make_gpsd}[backend](link)
     s.setup()
+    CLK.ticks = t                       # opening the port / the gpsd handshake is not part of the scenario
     s.set_retries(sc['retries'])
     s.set_retry_delay(sc['delay'])
     return s
@@ -536,10 +704,11 @@ def run_sequence(sc):
     CLK.ticks = T0
     s = new_server(sc)
     outs, starts, per_req = [], [], []
+    keeps = sc.get('backend') == 'gpsd'     # the gpsd back end has no way to drop what its socket has buffered (R-gpsd-flush)
     for i, r in enumerate(sc['reqs']):
-        s._arrive()
-        starts.append((CLK.ticks, list(s.pending), len(s.sent), len(s.rx_trace), len(s.calls)))
-        s.begin(i)
+        s.link.arrive()
+        starts.append((CLK.ticks, list(s.link.pending), len(s.sent), len(s.rx_trace), len(s.calls), bytes(s.link.buf) if keeps else b''))
+        s.link.begin(i)
         outs.append(call(s, r['kind'], req_of(r)))
     for i in range(len(sc['reqs'])):
         a = starts[i][2]
@@ -549,11 +718,12 @@ def run_sequence(sc):
 
 
 def run_alone(sc, i, start):
-    """request i alone on a newly created and set-up server facing the same arrivals, nothing buffered"""
+    """request i alone on a newly created and set-up server facing the same arrivals, nothing buffered (over gpsd: the same
+    bytes waiting in the socket, which no server can drop)"""
     tick, pending = start[0], start[1]
     CLK.ticks = tick
-    s = new_server(sc, req_index=i, pending=pending)
-    s.begin(i)
+    s = new_server(sc, req_index=i, pending=pending, buffered=start[5])
+    s.link.begin(i)
     out = call(s, sc['reqs'][i]['kind'], req_of(sc['reqs'][i]))
     return out, list(s.sent)
 
@@ -628,6 +798,10 @@ def benign(rng, awaited, others=()):
     """traffic that is not an answer-class frame: NMEA, other UBX (also of class/ids polled EARLIER on this server),
     corrupted frames, filler"""
     k = rng.random()
+    if k < 0.08:
+        # what gpsd itself puts on the data socket between the raw bytes
+        return rng.choice([b'{"class":"TPV","device":"/dev/ttyS3","mode":3,"time":"2024-01-01T00:00:00.000Z"}\r\n',
+                           b'{"class":"SKY","device":"/dev/ttyS3","satellites":[]}\r\n', b'{"class":"WATCH","enable":true,"raw":2}\r\n'])
     if k < 0.25:
         return b'$GPGGA,1,2*33\r\n'
     if k < 0.5:
@@ -643,6 +817,16 @@ def benign(rng, awaited, others=()):
     return bytes(rng.choice([0, 0x24, 0x62, 0xb5]) for _ in range(rng.randrange(1, 4))).replace(b'\xb5\x62', b'\xb5\x00')
 
 
+def pick_backend(rng, chunk, timeout):
+    """the stub back end, or - where the scenario's read size and time-out are theirs - the library's own tty / gpsd back end
+    over the same arrivals"""
+    if (chunk, timeout) == (1, 102):
+        return rng.choice(['base', 'tty', 'tty'])
+    if (chunk, timeout) == (128, 256):
+        return rng.choice(['base', 'gpsd', 'gpsd'])
+    return 'base'
+
+
 def gen_c06(rng):
     kind = rng.choice(['set', 'set', 'mga', 'poll', 'poll', 'poll'])
     cls_, id_ = (0x13, 0x40) if kind == 'mga' else pick_req_cid(rng)
@@ -654,11 +838,23 @@ def gen_c06(rng):
     dticks = delay * 1024 // 1000
     awaited = {'set': [ACK, NAK], 'mga': [MGA], 'poll': [(cls_, id_)] + ([ACK, NAK] if cls_ == 6 else [])}[kind]
     tx, timelines = [], []
+    cfgpoll = kind == 'poll' and cls_ == 6
     for a in range(K - 1):
-        fk = rng.choice(['silence', 'garbage', 'corrupt', 'truncated', 'txfail', 'unrelated'])
+        fk = rng.choice(['silence', 'garbage', 'corrupt', 'truncated', 'txfail', 'unrelated'] + (['halfway', 'halfway'] if cfgpoll else []))
         tx.append(fk != 'txfail')
         tl = []
-        if fk == 'garbage':
+        if fk == 'halfway':
+            # a configuration poll that gets its response but not the acknowledgement (lost, corrupted, or a NAK in its place)
+            t1 = rng.randrange(1, max(2, dticks // 2))
+            tl = [(t1, frame(cls_, id_, rand_payload(rng, minlen + rng.choice([0, 3]))).hex())]
+            u = rng.random()
+            if u < 0.3:
+                f = bytearray(frame(5, 1, [cls_, id_]))
+                f[rng.choice([2, 3, 6, 7, 8, 9])] ^= 1 << rng.randrange(8)
+                tl.append((t1 + rng.randrange(1, max(2, dticks // 2)), bytes(f).hex()))
+            elif u < 0.5:
+                tl.append((t1 + rng.randrange(1, max(2, dticks // 2)), frame(5, 0, [cls_, id_]).hex()))
+        elif fk == 'garbage':
             tl = [(rng.randrange(1, max(2, dticks // 2)), bytes(rng.choice([0, 1, 0x24, 0x62, 0xff]) for _ in range(rng.randrange(1, 20))).hex())]
         elif fk == 'corrupt':
             c, i = rng.choice(awaited)
@@ -723,7 +919,7 @@ def gen_c06(rng):
         tl = [(off, body.hex())]
     timelines.append(tl)
     expect = [K, f'{acid[0]}/{acid[1]}:{tag}:{apl.hex()}']
-    return {'retries': retries, 'delay': delay, 'chunk': chunk, 'timeout': timeout,
+    return {'retries': retries, 'delay': delay, 'chunk': chunk, 'timeout': timeout, 'backend': pick_backend(rng, chunk, timeout),
             'reqs': history + [{'kind': kind, 'cid': [cls_, id_], 'payload': rand_payload(rng, rng.choice([0, 1, 6])).hex(), 'resp': str(minlen),
                                 'tx': tx, 'timelines': timelines}], 'expect': expect}
 
@@ -769,7 +965,7 @@ def gen_sequence(rng):
                      'tx': [rng.random() < 0.88 for _ in range(retries + 1)], 'timelines': timelines})
         if kind == 'poll':
             earlier.append((cls_, id_, minlen))
-    return {'retries': retries, 'delay': delay, 'chunk': chunk, 'timeout': timeout, 'reqs': reqs}
+    return {'retries': retries, 'delay': delay, 'chunk': chunk, 'timeout': timeout, 'backend': pick_backend(rng, chunk, timeout), 'reqs': reqs}
 
 
 def gen_seqs(rng, n, profile):
@@ -1183,14 +1379,7 @@ class FakeSocketModule:
 
 def gpsd_server(device):
     import ubxlib.server as srv
-    # whatever way the module reaches the socket API - `import socket` or names imported from it - goes to the stub
-    for name, val in list(vars(srv).items()):
-        if val is real_socket:
-            setattr(srv, name, FakeSocketModule)
-        elif val is real_socket.socket:
-            setattr(srv, name, FakeSocketModule.socket)
-    if getattr(srv, 'socket', None) is not FakeSocketModule and getattr(srv, 'socket', None) is not FakeSocketModule.socket:
-        srv.socket = FakeSocketModule
+    point_sockets(srv, FakeSocketModule)
     realenv.patch_time(srv)
     FakeSocketModule.script = {}
     FakeSocketModule.log = []
